@@ -1,4 +1,4 @@
-import SqlgrepModel.Model.Exec
+import SqlgrepModel.Lemmas.AggFollowSim
 /-
 C11 — incremental (tail -f) results equal a batch run over the same prefix.
 
@@ -6,8 +6,9 @@ Follow mode feeds lines one at a time through `executeLine … (withResult := tr
 `executeLine … (withResult := false)` for aggregates (update only) and prints one final table, and the very
 same per-line step for non-aggregates. Part 1 (this file, proved): non-aggregate statements — the rows
 emitted for the k-th line are exactly the rows by which the batch output over k lines extends the batch
-output over k−1 lines. Part 2 (aggregates: the table after the k-th update+result equals the batch result
-over the first k lines) builds on the aggregation refinement lemmas (Lemmas/Agg*.lean).
+output over k−1 lines. Part 2 (aggregates, end of this file): the table shown after the k-th update+result equals
+the batch result over the first k lines — from the aggregation refinement (Lemmas/Agg*.lean): `execute_result` keeps
+the coupling between state and per-group rows (`result_repeatable`), and the table is a function of those rows alone.
 -/
 namespace Sqlgrep.Props.C11
 open Sqlgrep
@@ -70,5 +71,110 @@ theorem select_incremental_eq_batch_extension (O : Oracles) (qy : Query) (idx : 
         | none => []) := by
   rw [runFile_append O qy idx w pre fl {} hstop]
   exact batch_line_extends O qy idx w fl _ es' lo hr hx
+
+/-! ### aggregate statements -/
+
+open Sqlgrep.Spec.Agg
+
+/-- in follow mode the engine's per-line step for an aggregate statement (no join) is "update, then — if WHERE admitted
+the row — a full result" on the aggregation state -/
+theorem agg_follow_step (O : Oracles) (qy : Query) (q : AggStmt) (idx : JoinIndex) (es : EngineState) (l : Line)
+    (hq : qy.stmt = .aggregate q) (hj : qy.join = none) (hadm : anyResult l.row = true) :
+    executeLine O qy idx true es l =
+      (followStep O q es.agg (lineEnv qy.table l)).bind (fun p =>
+        .ok (updateLimit false q.limit { es with agg := p.1 } p.2)) :=
+  executeLine_follow_agg O qy q idx es l hq hj hadm
+
+/-- in batch mode the per-line step is the update alone (the table is printed once, by `finalResult`) -/
+theorem agg_batch_step (O : Oracles) (qy : Query) (q : AggStmt) (idx : JoinIndex) (es : EngineState) (l : Line)
+    (hq : qy.stmt = .aggregate q) (hj : qy.join = none) (hadm : anyResult l.row = true) :
+    executeLine O qy idx false es l =
+      (aggUpdateRow O q es.agg (lineEnv qy.table l)).bind (fun p =>
+        .ok ({ es with agg := p.1 }, { result := none, reachedLimit := false })) :=
+  executeLine_batch_agg O qy q idx es l hq hj hadm
+
+/-- **results are repeatable** (`R s g → R (result s).state g`): the only state change of `execute_result` is
+`publishPercentiles`, which keeps every cell similar to the fold of its aggregate over its group's rows; DISTINCT
+uses a fresh memory per result (D24 repaired), so nothing else leaks between refreshes. -/
+theorem result_repeatable {O : Oracles} {q : AggStmt} {st st2 : AggState} {rows : List (List Value × Env)} {out : RowOut}
+    (hc : CoupledP O q st rows) (hres : aggResult O q st = .ok (st2, out)) : CoupledP O q st2 rows := by
+  rw [aggResult_state hres]; exact coupledP_publish hc
+
+/-- the coupling survives any history of update+result steps -/
+theorem follow_history_coupled {O : Oracles} {q : AggStmt} (envs : List Env) {st : AggState}
+    (h : followRun O q envs {} = .ok st) : ∃ rows, keyedRows O q envs = some rows ∧ CoupledP O q st rows := by
+  obtain ⟨rows, hr, hc⟩ := followRun_coupledP envs (coupledP_init O q) h
+  exact ⟨rows, hr, by simpa using hc⟩
+
+/-- **`follow_eq_batch_prefix` (aggregate half).** For every aggregate statement without LIMIT (any aggregates, GROUP BY,
+WHERE, HAVING incl. hidden aggregates, DISTINCT), every input and every k: feed the first k−1 lines' rows `pre` one at a
+time (update + result each), then a k-th row `env` that WHERE admits — the table shown for it is exactly the table of a
+batch run (update only per row, one result at the end) over `pre ++ [env]`. Proved by direct simulation of the two
+states (no reference to the specification, so it also covers the finding classes D10/D15). Hypotheses: both runs got
+that far without an evaluation error, and the GROUP BY keys seen are exact (equal in the value order ⇒ identical; with
+`0.0` and `-0.0` as keys the two modes may show different representatives of the group). -/
+theorem follow_eq_batch_prefix {O : Oracles} {q : AggStmt} (hlim : q.limit = none) (pre : List Env) (env : Env)
+    {sf sf1 sf2 sb : AggState} {out : RowOut}
+    (hfollow : followRun O q pre {} = .ok sf) (hupd : aggUpdateRow O q sf env = .ok (sf1, true))
+    (hres : aggResult O q sf1 = .ok (sf2, out))
+    (hbatch : aggRun O q (pre ++ [env]) {} = .ok sb)
+    (hex : KeysExact (keysOf O q (pre ++ [env]))) :
+    finalResult O q { agg := sb } = .ok out :=
+  follow_table_eq_batch_direct hlim pre env hfollow hupd hres hbatch hex
+
+/-- the same relation between the states after any history: every cell of the follow-mode state is similar to the
+batch-mode state's cell (identical but for published PERCENTILE values), so `execute_result` yields the same table -/
+theorem follow_state_similar_to_batch {O : Oracles} {q : AggStmt} (envs : List Env) {sf sb : AggState}
+    (hf : followRun O q envs {} = .ok sf) (hb : aggRun O q envs {} = .ok sb) (hex : KeysExact (keysOf O q envs)) :
+    (aggResult O q sf).bind (fun r => .ok r.2) = (aggResult O q sb).bind (fun r => (.ok r.2 : Outcome RowOut)) := by
+  obtain ⟨S, hsim, hSk⟩ := sim2_runs envs (sim2_init q) (K := []) (fun k hk => by simp at hk) hf hb
+  apply aggResult_sim2 hsim
+  intro a ha b hb' hab
+  have hk : ∀ k ∈ S, k ∈ keysOf O q envs := fun k hk => by
+    rcases hSk k hk with h | h
+    · simp at h
+    · exact h
+  exact hex a (hk a ha) b (hk b hb') hab
+
+/- A second route to the same statement, through the specification (C04's `agg_refines_spec`): both tables equal the
+   specification's table for the prefix. It needs no hypothesis on the batch run (it succeeds, by the totality half of
+   the refinement) but only applies where the specification fixes the outcome, outside D10/D15. -/
+
+/-- through the specification: the table shown for the k-th line is the table of the batch run over the first k lines,
+and that batch run succeeds -/
+theorem follow_eq_batch_prefix_via_spec {O : Oracles} {q : AggStmt} (hwf : StmtWF q) (hlim : q.limit = none)
+    (pre : List Env) (env : Env) {sf sf1 sf2 : AggState} {out : RowOut}
+    (hfollow : followRun O q pre {} = .ok sf) (hupd : aggUpdateRow O q sf env = .ok (sf1, true))
+    (hres : aggResult O q sf1 = .ok (sf2, out))
+    {t : List (List Value)} (hspec : table O q (pre ++ [env]) = some t) (hclass : deviationClass O q (pre ++ [env]) = "") :
+    (aggRun O q (pre ++ [env]) {}).bind (fun sb => finalResult O q { agg := sb }) = .ok out := by
+  obtain ⟨sb, hsb⟩ := (by
+    cases hr : keyedRows O q (pre ++ [env]) with
+    | none => simp [table, hr] at hspec
+    | some rows =>
+      obtain ⟨hfolds, hkeys⟩ := foldsOk_of_spec hwf hr hspec hclass
+      exact aggRun_progress (pre ++ [env]) (coupled_init O q) hr (by simpa using hfolds) hkeys :
+    ∃ sb, aggRun O q (pre ++ [env]) {} = .ok sb)
+  rw [hsb]
+  exact follow_table_eq_batch hwf hlim pre env hfollow hupd hres hsb hspec hclass
+
+/-- `SELECT COUNT(*) FROM t` -/
+def exCount : AggStmt :=
+  { items := [{ name := "count0", kind := .count none false, transform := none }], filter := none, groupBy := none,
+    having := none, havingAggs := [], havingKeys := [], havingVisit := [], limit := none, distinct := false }
+
+/-- non-vacuity: after one line fed incrementally, the second line's table (`2`) is the batch table over both lines -/
+example : ∃ sf sf1 sf2 out, followRun {} exCount [{}] {} = .ok sf ∧ aggUpdateRow {} exCount sf {} = .ok (sf1, true) ∧
+    aggResult {} exCount sf1 = .ok (sf2, out) ∧ table {} exCount ([({} : Env)] ++ [({} : Env)]) = some [[.int 2]] ∧
+    deviationClass {} exCount ([({} : Env)] ++ [({} : Env)]) = "" ∧ out.rows = [[.int 2]] ∧
+    (aggRun {} exCount ([({} : Env)] ++ [({} : Env)]) {}).bind (fun sb => finalResult {} exCount { agg := sb }) = .ok out :=
+  ⟨_, _, _, _, rfl, rfl, rfl, rfl, rfl, rfl, rfl⟩
+
+/-- non-vacuity of `follow_eq_batch_prefix`: the key-exactness hypothesis on the same input, and the conclusion -/
+example : KeysExact (keysOf {} exCount ([({} : Env)] ++ [({} : Env)])) := by
+  intro a ha b hb _
+  simp [keysOf, keyOf, exCount] at ha hb
+  rw [ha, hb]
+example : finalResult {} exCount { agg := (publishPercentiles (publishPercentiles {})) } = finalResult {} exCount {} := rfl
 
 end Sqlgrep.Props.C11
